@@ -1,6 +1,7 @@
 //! vx — mechanical extractor: real sas-lexer source text  ->  one Verus file per unit.
 //!
 //! `vx gen --src <lexer src dir> --contracts <dir> --template <unit.vx> --cfg a,b,c --out <f.rs> --map <f.map.json>`
+//!        `[--expanded <macro expansion of the same tree>]` (R8, only for units that use `//@expanded`)
 //! `vx scan ...` (see scan.rs) — syntactic frame scans.
 //!
 //! The template owns ghost code (spec fns, lemmas, impl headers, contracts); every executable
@@ -13,7 +14,7 @@ mod scan;
 use std::process::exit;
 
 fn usage() -> ! {
-    eprintln!("usage: vx gen --src DIR --contracts DIR --template FILE --cfg LIST --out FILE --map FILE\n       vx scan <name> --src DIR [--out FILE]");
+    eprintln!("usage: vx gen --src DIR --contracts DIR --template FILE --cfg LIST --out FILE --map FILE [--expanded FILE]\n       vx scan <name> --src DIR [--out FILE]");
     exit(2)
 }
 
